@@ -1,10 +1,10 @@
 (* C02 -- Collections hold what the history says, one dataset per type + data ID.
-   Statements only; every proof is `exact <lemma>` from Proofs/RegistryProofs.v / RegistryProofsX1-4.v.
+   Statements only; every proof is `exact <lemma>` from Proofs/RegistryProofs.v / RegistryProofsX1-5.v.
    `run h` is the state after the history h (fold_left of `step` from the empty registry); histories range over
    ALL lists of operations with arbitrary (also invalid) arguments. *)
 From Coq Require Import NArith List Bool Lia.
 From V Require Import Model.Registry Model.RegistryAbs Proofs.RegistryProofs Proofs.RegistryProofsX1 Proofs.RegistryProofsX2
-  Proofs.RegistryProofsX3 Proofs.RegistryProofsX4.
+  Proofs.RegistryProofsX3 Proofs.RegistryProofsX4 Proofs.RegistryProofsX5.
 Import ListNotations.
 Open Scope N_scope.
 
@@ -164,6 +164,20 @@ Theorem insert_conflict_iff : forall h t c items,
 Proof. exact insert_conflict_iff_batch_p. Qed.
 Print Assumptions insert_conflict_iff.
 
+(* BATCH form for associate (any reachable state, any batch of honest refs to live datasets of registered types, TAGGED
+   collection): refused with Conflict exactly when another dataset of the collection holds one of the batch's keys, or
+   two refs of the batch with different ids share a key; otherwise it succeeds *)
+Theorem associate_conflict_iff : forall h c refs,
+  coll_type (run h) c = Some TAGGED ->
+  (forall f, In f refs -> has_type (run h) (f_type f) = true /\ alive (run h) (f_id f) = true /\ honest_ref (run h) f = true) ->
+  (snd (step (run h) (Associate c refs)) = Err Conflict <->
+   (exists f x, In f refs /\ In x (tags (run h)) /\
+      r_coll x = c /\ r_type x = f_type f /\ r_data x = f_data f /\ r_id x <> f_id f) \/
+   (exists f g, In f refs /\ In g refs /\ f_type f = f_type g /\ f_data f = f_data g /\ f_id f <> f_id g)) /\
+  (snd (step (run h) (Associate c refs)) = Ok \/ snd (step (run h) (Associate c refs)) = Err Conflict).
+Proof. exact associate_conflict_iff_batch_p. Qed.
+Print Assumptions associate_conflict_iff.
+
 (* ---- non-vacuity: a reachable, non-trivial state and the behaviours the hypotheses talk about ------------ *)
 Definition ex_h : list op :=
   [RegisterRun 0; RegisterRun 2; RegisterTagged 1; RegisterType 0; RegisterType 1;
@@ -208,4 +222,11 @@ Proof. vm_compute. reflexivity. Qed.
 Example ex_batch_dup_data : snd (step (run ex_h) (Insert 1 0 [(2, 130); (2, 131)])) = Err Conflict.
 Proof. vm_compute. reflexivity. Qed.
 Example ex_batch_ok : snd (step (run ex_h) (Insert 1 0 [(2, 130); (3, 131)])) = Ok.
+Proof. vm_compute. reflexivity. Qed.
+Example ex_assoc_batch_clash_inside : snd (step (run ex_h) (Associate 1 [Ref 101 0 1; Ref 110 0 0])) = Err Conflict
+  /\ forallb (honest_ref (run ex_h)) [Ref 101 0 1; Ref 110 0 0] = true.
+Proof. vm_compute. split; reflexivity. Qed.
+Example ex_assoc_batch_two_new : snd (step (run (ex_h ++ [Disassociate 1 [Ref 100 0 0]])) (Associate 1 [Ref 110 0 0; Ref 100 0 0])) = Err Conflict.
+Proof. vm_compute. reflexivity. Qed.
+Example ex_assoc_batch_ok : snd (step (run (ex_h ++ [Disassociate 1 [Ref 100 0 0]])) (Associate 1 [Ref 110 0 0; Ref 101 0 1])) = Ok.
 Proof. vm_compute. reflexivity. Qed.
